@@ -167,9 +167,12 @@ def run(rep: Report, prog: Program, tier: str) -> None:
     q = f"{ST}:retry_after_or.<locals>.f"
     ctx = ("param", "ctx")
     rem = ("attr", ctx, "remaining_s")
-    jitter = ("free", "jitter")
     outer = prog.func(f"{ST}:retry_after_or")
-    jit_ok = any(isinstance(n, ast.Assign) and isinstance(n.targets[0], ast.Name) and n.targets[0].id == "jitter" and ast.unparse(n.value).replace(" ", "") in ("max(0.0,jitter_s)", "max(jitter_s,0.0)") for n in prog._own_nodes(outer.node))
+    from .common import nonneg_local
+
+    jname = nonneg_local(prog, outer, "jitter_s")  # the local is found by what it is bound to, not by its name
+    jitter = ("free", jname or "jitter")
+    jit_ok = jname is not None
     rep.instance("R18.2", "retry_after_or|jitter-nonneg")
     if jit_ok:
         rep.ok("R18.2")
